@@ -42,11 +42,21 @@ pub(crate) fn named(attr: &StructAttr, ts_name: Expr, fields: &FieldsNamed) -> R
         (0, 0) => quote!("{  }".to_owned()),
         (_, 0) => quote!(format!("{{ {} }}", #fields)),
         (0, 1) => quote! {{
-            if #flattened.starts_with('(') && #flattened.ends_with(')') {
-                #flattened[1..#flattened.len() - 1].trim().to_owned()
-            } else {
-                #flattened.trim().to_owned()
-            }
+            let flattened = #flattened;
+            let unwrapped = flattened
+                .strip_prefix('(')
+                .and_then(|x| x.strip_suffix(')'))
+                // `(A | B)` can be unwrapped, `(A | B) & (C | D)` can not
+                .filter(|x| {
+                    x.chars()
+                        .try_fold(0usize, |depth, c| match c {
+                            '(' => Some(depth + 1),
+                            ')' => depth.checked_sub(1),
+                            _ => Some(depth),
+                        })
+                        == Some(0)
+                });
+            unwrapped.unwrap_or(&flattened).trim().to_owned()
         }},
         (0, _) => quote!(#flattened),
         (_, _) => quote!(format!("{{ {} }} & {}", #fields, #flattened)),
